@@ -57,7 +57,35 @@ def run(ctx: Ctx, rep: Report) -> None:
     from ..rules.foldorder import rule_insertord
     from ..rules.foldorder import rule_kronfold
     rule_kronfold(ctx, rep, ('bqskit/ir/gates/', 'bqskit/qis/'), 3)
-    rule_insertord(ctx, rep, ('bqskit/ir/gates/',), 1)
+    rule_insertord(ctx, rep, ('bqskit/ir/',), 1)
+    # get_grad and get_unitary_and_grad build the gradient the same way
+    n = 0
+    for c in gates:
+        a, b = c.methods.get('get_grad'), c.methods.get(
+            'get_unitary_and_grad')
+        if a is None or b is None:
+            continue
+        da, db = _temps(a.node), _temps(b.node)
+        shared = da.keys() & db.keys()
+        if not shared:
+            continue
+        n += 1
+        rep.count()
+        diff = sorted(k for k in shared if da[k] != db[k])
+        rep.check(
+            not diff, 'SIBTEMP', f'{c.name}:grad', c.path, b.lineno,
+            f'{len(shared)} temporaries shared by get_grad and '
+            'get_unitary_and_grad are defined identically',
+            f'{c.name}: get_grad and get_unitary_and_grad define the same '
+            'temporaries differently: ' + '; '.join(
+                f'{k}: `{da[k]}` vs `{db[k]}`' for k in diff)
+            + ' - the two entry points return different gradients',
+            key='grad-temps',
+        )
+    rep.floor('SIBTEMP', n, 2, 'gate classes writing the gradient twice')
+    # composed gates adjoin (not transpose) what they hand to their inner gate
+    from ..rules.adjoint import rule_adjoint
+    rule_adjoint(ctx, rep, ('bqskit/ir/gates/',), 2)
 
 
 def override(ctx: Ctx, rep: Report, gates: list[ClassInfo]) -> None:
